@@ -1,9 +1,19 @@
 import Driver.Proto
 import Driver.Url
+import Driver.Ruler
+import Driver.ErasedSet
+import Driver.Tree
+import Driver.Render
+import Driver.SourceMap
 
 def dispatch (line : String) : String :=
   match line.trimAscii.toString.splitOn " " with
   | "url" :: args => Driver.Url.handle args
+  | "ruler" :: args => Driver.Ruler.handle args
+  | "eset" :: args => Driver.ErasedSet.handle args
+  | "tree" :: args => Driver.Tree.handle args
+  | "render" :: args => Driver.Render.handle args
+  | "smap" :: args => Driver.SourceMap.handle args
   | _ => "bad-stream"
 
 partial def loop (h : IO.FS.Stream) (out : IO.FS.Stream) : IO Unit := do
